@@ -41,7 +41,7 @@ func Ops() []*core.Op {
 		},
 		{
 			Name:       "c16.gc",
-			Doc:        "nodeclaim/garbagecollection Controller.Reconcile on the fake client: random clusters of NodeClaims / provider instances / Nodes with NodeClaim-list, provider-list and Delete failures (no Node-lookup failures); observes the set of NodeClaims Delete was called for",
+			Doc:        "nodeclaim/garbagecollection Controller.Reconcile on the fake client: random clusters of NodeClaims / provider instances / Nodes (incl. terminating Nodes: deletion timestamp set, still present) with NodeClaim-list, provider-list and Delete failures (no Node-lookup failures); observes the set of NodeClaims Delete was called for",
 			N:          nq(3000, 40000),
 			Gen:        genGC,
 			Impl:       implGC,
@@ -63,7 +63,7 @@ func Ops() []*core.Op {
 			Labels:         gcLabels,
 			Signature:      gcSignature,
 			Shrink:         gcShrink,
-			ExhaustiveNote: "one NodeClaim: Registered {True,False,Unknown,absent} x provider {absent,listed,terminating} x Nodes {none, one (4 Ready states), two (4 mixes)} x Node lookup {ok,failed} x deleting (failed lookups: 3 Node representatives)",
+			ExhaustiveNote: "one NodeClaim: Registered {True,False,Unknown,absent} x provider {absent,listed,terminating} x Nodes {none, one (4 Ready states x terminating or not), two (6 mixes, 2 with terminating Nodes)} x Node lookup {ok,failed} x deleting (failed lookups: 3 Node representatives)",
 		},
 		{
 			Name: "c16.liveness",
@@ -84,7 +84,7 @@ func Ops() []*core.Op {
 		},
 		{
 			Name: "c16.repair",
-			Doc:  "node/health Controller.Reconcile on the fake client: repair policies x Node conditions x fake clock around the toleration x pool / cluster population around the 20% breaker x NodeClaim-list / Node-list / annotate / Delete failures; observes Delete calls, RequeueAfter, error",
+			Doc:  "node/health Controller.Reconcile on the fake client: repair policies x Node conditions x fake clock around the toleration x pool / cluster population around the 20% breaker (incl. terminating Nodes: deletion timestamp set, still present) x NodeClaim-list / Node-list / annotate / Delete failures; observes Delete calls, RequeueAfter, error",
 			N:    nq(3000, 40000),
 			Gen:  genRepair,
 			Enum: enumRepair,
@@ -98,7 +98,19 @@ func Ops() []*core.Op {
 			},
 			Labels:         repairLabels,
 			Signature:      func(json.RawMessage, any) string { return "repair" },
-			ExhaustiveNote: "pooled and standalone: population 1..11 x unhealthy 1..4 x clock at toleration edge {-1ns,0,+1ns}; every single fault at populations 5/1 and 6/2",
+			ExhaustiveNote: "pooled and standalone: population 1..11 x unhealthy 1..4 x clock at toleration edge {-1ns,0,+1ns} x terminating Nodes {none, one / all other unhealthy, all unhealthy + target, one healthy}; every single fault at populations 5/1 and 6/2",
+		},
+		{
+			Name:       "c16.repair_seq",
+			Doc:        "ONE node/health controller reconciling the Nodes of an evolving cluster again and again on one fake client (fake clock advancing): conditions flip, Nodes start terminating (deletion timestamp, kept by the finalizer - as after an earlier repair) and disappear, Node-list / Delete failures; every Node has its own NodeClaim; observes Delete calls, RequeueAfter, error of every reconcile; the spec is evaluated on every Delete against the cluster as it was at that moment",
+			N:          nq(1200, 15000),
+			Gen:        genRepairSeq,
+			Impl:       implRepairSeq,
+			Rule:       "non-trivial = some reconcile is of a present, managed Node that matches a repair policy",
+			Nontrivial: repairSeqNontrivial,
+			Labels:     repairSeqLabels,
+			Signature:  func(json.RawMessage, any) string { return "repair_seq" },
+			Shrink:     repairSeqShrink,
 		},
 	}
 }
